@@ -10,7 +10,11 @@ package stream
 //@ devirtall FlowI => *Flow
 //@ pure FlowRepI.GetName
 //@ pure APIStreamI.GetActionsType
-//@ pure APIStreamI.GetType
+// the direction of the flows a transaction is walking (what GetType answers; SetType turns it, see package streams)
+//@ ghost var gWalk gmap[publictypes.APIStreamI]publictypes.StreamType
+//@ iface APIStreamI.GetType
+//@   modifies nothing
+//@   ensures result == gWalk[self]
 //@ pure ReqLunarAction.IsEarlyReturnType
 
 // Ghost execution trace: event i is one processor execution; xn[i] the node, xo[i] the output name the processor gave,
@@ -50,7 +54,7 @@ package stream
 //@ ghost func listsFit(a publictypes.APIStreamI, act *streamconfig.StreamActions) bool = act != nil && (reqT(a) ==> act.Request != nil) && (resT(a) ==> act.Response != nil)
 //@ ghost func scReq(a publictypes.APIStreamI, io streamtypes.ProcessorIO) bool = reqT(a) && !ifacenil(io.ReqAction) && io.ShortCircuit != nil
 //@ ghost func scRes(a publictypes.APIStreamI, io streamtypes.ProcessorIO) bool = resT(a) && io.ShortCircuit != nil
-//@ ghost func early(a publictypes.APIStreamI, io streamtypes.ProcessorIO) bool = (reqT(a) || resT(a)) && !scReq(a, io) && !scRes(a, io) && io.Type == publictypes.StreamTypeResponse && a.GetType() == publictypes.StreamTypeRequest
+//@ ghost func early(a publictypes.APIStreamI, io streamtypes.ProcessorIO) bool = (reqT(a) || resT(a)) && !scReq(a, io) && !scRes(a, io) && io.Type == publictypes.StreamTypeResponse && gWalk[a] == publictypes.StreamTypeRequest
 //@ ghost func walks(a publictypes.APIStreamI, io streamtypes.ProcessorIO) bool = (reqT(a) || resT(a)) && !scReq(a, io) && !scRes(a, io) && !early(a, io)
 //@ ghost func matchE(n *streamflow.FlowGraphNode, k int, o string) bool = n.edges[k].node != nil && n.edges[k].condition == o
 
